@@ -238,7 +238,7 @@ Lemma backend_of_upstream cfg q u :
            | Rewrite from to => url_host (re_replace from (q_host q) to)
            end in
   r_target (handle cfg q) = Some t /\
-  r_fwd_host (handle cfg q) = Some (if u_preserve u then q_host q else t).
+  r_fwd_host (handle cfg q) = Some (if u_preserve u then preserved_host (q_host q) t else t).
 Proof.
   intros Hr. unfold Hostmux.handle. destruct (str_eqb (q_path q) ping_path); [discriminate|]. rewrite Hr.
   unfold Hostmux.proxy_request. destruct (whitelisted re_match u q).
